@@ -162,7 +162,7 @@ def wsEvOfJson (j : Json) : Except String Ws.WsEv := do
     | _ => throw s!"ws ev {k}"
   else throw "ws ev"
 
-/-- {"init":{version, headers, max_len, server_name_ok, ping, token, ext_accepts}, "ops":[{"send":…}|{"in":"data","events":[…]}|{"in":"streamClosed"}]} -/
+/-- {"init":{version, headers, max_len, server_name_ok, ping, token, ext_accepts}, "ops":[{"send":…}|{"in":"data","events":[…]}|{"in":"dataEchoLost","events":[["close",code]]}|{"in":"streamClosed"}]} -/
 def wsRunWith (leanToken : Option (Bytes → Bytes)) : Handler := fun j => do
   let init ← j.getObjVal? "init"
   let tokenB ← match leanToken with
@@ -192,8 +192,17 @@ def wsRunWith (leanToken : Option (Bytes → Bytes)) : Handler := fun j => do
         let kind ← getStr op "in"
         let i : Ws.In ← match kind with
           | "data" => do pure (.data (← (← getArr op "events").toList.mapM wsEvOfJson))
+          | "dataEchoLost" => do pure (.data (← (← getArr op "events").toList.mapM wsEvOfJson))
           | _ => pure .streamClosed
-        let (s', puts, evs, err) := Ws.handle s i
+        -- "dataEchoLost": the write of the first thing this read makes the stream send fails and re-enters with
+        -- StreamClosed; modelled for the one case the harness generates - a lone close frame that is echoed
+        let lost : Option Nat := match kind, i with
+          | "dataEchoLost", .data [.close code] =>
+            if s.closed = false ∧ s.hs.accepted = true ∧ s.conn = some .open then some code else none
+          | _, _ => none
+        let (s', puts, evs, err) := match lost with
+          | some code => Ws.handleCloseEchoLost s code
+          | none => Ws.handle s i
         s := s'
         outs := outs.push (Json.mkObj [("puts", Json.arr (puts.map wsPutJson).toArray), ("events", Json.arr (evs.map wsEvJson).toArray),
           ("error", optJson (fun e => Json.str (errName e)) err), ("state", wsStName s'.st), ("closed", s'.closed)])
